@@ -237,7 +237,7 @@ pub fn programs(thorough: bool) -> Vec<Value> {
   let rows = ["`", "1", "Q", "A", "Z", "q", "a", "z"];
   let chars: Vec<char> = (32u8..127).map(|b| b as char).chain("é€\u{7f}\t".chars()).collect();
   for row in rows { for pos in 0..14usize { for ch in &chars {
-    for (di, d) in defs.iter().enumerate().take(5) {
+    for (di, d) in defs.iter().enumerate().take(if thorough { defs.len() } else { 5 }) {
       let letters: String = std::iter::repeat(' ').take(pos).chain(std::iter::once(*ch)).collect();
       let from = match di { 0 => json!({ "row": row }), 1 | 2 | 3 => json!(["@a", { "row": row }]), _ => json!(["@a", "@b", { "row": row }]) };
       let mut ms = d.clone(); ms.push(json!({"from": from, "to": {"letters": letters}}));
@@ -303,10 +303,10 @@ pub fn programs(thorough: bool) -> Vec<Value> {
     json!({"from": ["@a", "@b", "@c", "J"], "to": ["@c", "@a", "UP"]}),
     json!({"from": ["@c", "@b", "@a", "J"], "repeat": "Disabled"}),
   ];
-  let kmax = if thorough { 3 } else { 2 };
-  for d in defs.iter().skip(1).take(if thorough { 7 } else { 3 }) {
+  let kmax = if thorough { 4 } else { 2 };
+  for (di5, d) in defs.iter().skip(1).take(if thorough { 7 } else { 3 }).enumerate() {
     let n = menu.len();
-    for len in 1..=kmax { for idx in 0..n.pow(len as u32) {
+    for len in 1..=kmax + (if thorough && di5 < 2 { 1 } else { 0 }) { for idx in 0..n.pow(len as u32) {
       let mut j = idx; let mut ms = d.clone();
       for _ in 0..len { ms.push(menu[j % n].clone()); j /= n; }
       ps.push(json!({ "mappings": ms }));
@@ -361,7 +361,7 @@ pub fn run(ctx: &Ctx) -> Outcome {
   o.cov("basic_mappings_compared", acc.mappings);
   o.cov("respelled_variants_compared", acc.variants);
   o.cov("exhaustive", true);
-  o.cov("rule", "programs enumerated from a grammar: 6 alias set-ups (one or several keys, several definitions per alias, extra output keys) x (1) every row spelling x every position 0..13 x every printable ASCII character (plus non-ASCII/control characters that must be rejected), (2) single mappings over 7 modifier lists x 6 output forms x 7 repeat forms x 5 absorbing forms x 4 neighbour contexts incl. repeat-only entries, (3) whole-row mappings with output modifiers, row repeats and absorbing, (4) every ordered tuple of source mappings from a 10-entry menu (order and repeat-only pass), plus the built-in layouts. Oracle: real(P) vs real(hand-written expansion by the reference expander), groups in source order, multiset within a group; respelled variants must convert identically. distinct_nontrivial = programs (distinct by construction) the loader accepted and that reached the comparison.".to_string());
+  o.cov("rule", "programs enumerated from a grammar: 8 alias set-ups (one or several keys, several definitions per alias, extra output keys) x (1) every row spelling x every position 0..13 x every printable ASCII character (plus non-ASCII/control characters that must be rejected), (2) single mappings over 7 modifier lists x 6 output forms x 7 repeat forms x 5 absorbing forms x 4 neighbour contexts incl. repeat-only entries, (3) whole-row mappings with output modifiers, row repeats and absorbing, (4) every ordered tuple of source mappings from a 12-entry menu (order and repeat-only pass; tuples of 1..2 quick, 1..4 thorough and 1..5 under the first two alias set-ups), plus the built-in layouts. Oracle: real(P) vs real(hand-written expansion by the reference expander), groups in source order, multiset within a group; respelled variants must convert identically. distinct_nontrivial = programs (distinct by construction) the loader accepted and that reached the comparison.".to_string());
   let si = ps.len() / 3;
   o.cov("samples", json!([{"program": ps[si], "reference_expansion": ref_expand(&ps[si]).map(|(g, i)| json!({"groups": g, "identities": i}))}]));
   o.assumptions = vec!["the reference expander's US-QWERTY and row tables were typed in independently".into(), "within one source mapping's expansion only the multiset is compared (the statement fixes order only between different source mappings)".into(), "programs using the same alias twice in one trigger are compared only if the loader accepts them; the last occurrence decides output-side substitution".into()];
